@@ -60,6 +60,8 @@ func Pool(thorough bool) []ugo.Object {
 		ugo.Array{ugo.Array{ugo.Int(1)}, ugo.Map{"k": ugo.Float(1)}}, ugo.Array{ugo.Array{ugo.True}, ugo.Map{"k": ugo.Char(1)}},
 		ugo.Map{}, ugo.Map{"k": ugo.Int(1)}, ugo.Map{"k": ugo.Float(1)}, ugo.Map{"k": ugo.True}, ugo.Map{"k": ugo.Char(1)},
 		ugo.Map{"k": ugo.Array{ugo.Int(0)}}, ugo.Map{"k": ugo.Array{ugo.False}},
+		// equally many keys, different key sets, undefined as the value of the key only one side has
+		ugo.Map{"k": ugo.Undefined}, ugo.Map{"j": ugo.Int(1)}, ugo.Map{"j": ugo.Undefined}, &ugo.SyncMap{Value: ugo.Map{"j": ugo.Undefined}}, ugo.Array{ugo.Map{"k": ugo.Undefined}},
 		ugo.Undefined,
 		&ugo.Error{Name: "E", Message: "m"},
 		&ugo.Function{Name: "f", Value: func(...ugo.Object) (ugo.Object, error) { return ugo.Undefined, nil }},
@@ -74,7 +76,7 @@ func Pool(thorough bool) []ugo.Object {
 			ugo.Char(2), ugo.Char(63), ugo.Char(64), ugo.Char('b'), ugo.Char(-2), ugo.Char(0xD800), ugo.Char(33),
 			ugo.String("ab"), ugo.String("a\x00"), ugo.String("97"), ugo.Bytes("ab"), ugo.Bytes("\xff"),
 			ugo.Array{ugo.Int(1), ugo.Int(2)}, ugo.Array{ugo.Undefined}, ugo.Array{ugo.String("a")}, ugo.Array{ugo.Bytes("a")},
-			ugo.Map{"k": ugo.Undefined}, ugo.Map{"j": ugo.Int(1)}, ugo.Map{"k": ugo.String("a")}, ugo.Map{"k": ugo.Bytes("a")},
+			ugo.Map{"k": ugo.String("a")}, ugo.Map{"k": ugo.Bytes("a")}, ugo.Array{ugo.Map{"j": ugo.Int(1)}},
 		)
 	}
 	return p
